@@ -27,13 +27,18 @@ RULE = (
     "MCMC) with q, L, pi recomputed by the simulator and the Jacobian and pre-image from the simulator's own closed-form "
     "composite (affine fitted from the start positions it observed); zero prior => exactly -inf; NaN tempered value in SMC "
     "=> -inf. evaluations = points judged; non-trivial = run with judged kernel evaluations; distinct_nontrivial counts "
-    "distinct (sampler, preconditioning, namespace, dtype, probe kinds hit) tuples."
+    "distinct (sampler, preconditioning, namespace, dtype, probe kinds hit) tuples. BlackJAXSMC (its own copy of the target, "
+    "evaluated under vmap/scan) runs through a jax-written stand-in for the absent blackjax (random-walk kernel) with a "
+    "jax-traceable twin of the model and proposal: every start position and every (z, value) the kernel evaluates is exported "
+    "through jax.debug.callback, the finished kernel's function is also asked eagerly about hole / NaN-slab / far points before "
+    "the next refit, and all of them are judged by the same closed-form oracle."
 )
 ASSUMPTIONS = [
-    "stub kernels; blackjax.py's copy of the target is not run; preconditioning='flow' is judged separately (thorough tier, black-box finite differences)",
+    "stub kernels (minipcn, emcee, and a random-walk-only stand-in for blackjax: BlackJAXSMC's nuts/hmc branches are not run); "
+    "preconditioning='flow' is judged separately (black-box finite differences)",
 ]
 COMPONENTS = runs.COMPONENTS
-BUDGET_S = {"quick": 80, "thorough": 1500}
+BUDGET_S = {"quick": 150, "thorough": 1500}
 
 
 def gen_cases(seed, tier):
@@ -46,6 +51,11 @@ def gen_cases(seed, tier):
     combos = [("zuko", "numpy"), ("zuko", "torch"), ("flowjax", "numpy"), ("flowjax", "jax")]
     if tier != "quick":
         combos = combos * 3 + [("zuko", "jax"), ("flowjax", "torch")]
+    # BlackJAXSMC (its own copy of the target, evaluated under vmap / scan) through the stand-in blackjax
+    nb = 16 if tier == "quick" else 400
+    for j in range(nb):
+        ss = stream_seeds(seed, ID, 60000 + j)
+        out.insert(j, {"run_index": 60000 + j, "kind": "blackjax", "scenario_seed": ss["scenario"], "fault_seed": ss["faults"], "tier": tier})
     for j, (backend, xp) in enumerate(combos):
         ss = stream_seeds(seed, ID, 50000 + j)
         out.insert(j, {"run_index": 50000 + j, "kind": "flowpre", "backend": backend, "xp": xp, "scenario_seed": ss["scenario"],
@@ -79,6 +89,10 @@ def scenario_of(case):
         return case["scenario"]
     if case.get("kind") == "flowpre":
         return flowpre_scenario(case)
+    if case.get("kind") == "blackjax":
+        from . import c05_blackjax
+
+        return c05_blackjax.scenario(case)
     rng = rng_from(case["scenario_seed"])
     scn = runs.draw_any(int(rng.integers(1 << 62)), case["tier"], samplers=("smc", "smc", "emcee_smc", "minipcn", "emcee"),
                         checkpoint_modes=("none",), n_final=("none", "larger"), kinds=("gauss_box", "hug", "periodic", "bimodal"),
@@ -213,6 +227,10 @@ def run_flowpre_case(case, workdir):
 def run_case(case, workdir):
     if case.get("kind") == "flowpre":
         return run_flowpre_case(case, workdir)
+    if case.get("kind") == "blackjax":
+        from . import c05_blackjax
+
+        return c05_blackjax.run_case(case, workdir, scenario_of(case))
     scn = scenario_of(case)
     rng = rng_from(case["fault_seed"])
     where = O.scn_where(scn)
